@@ -302,6 +302,15 @@ Proof.
   cbn [map flat_map]. rewrite stringify_oelement by exact Hk. f_equal. apply IH. exact Hr.
 Qed.
 
+(* distinct locations get distinct texts (up to Python's identification of the int key i and the index i,
+   which [oelement] makes) *)
+Theorem orender_inj p1 p2 :
+  opath_ok p1 = true -> opath_ok p2 = true -> orender p1 = orender p2 -> map oelement p1 = map oelement p2.
+Proof.
+  intros H1 H2 E. pose proof (oelements_render p1 H1) as E1. pose proof (oelements_render p2 H2) as E2.
+  rewrite E in E1. rewrite E1 in E2. inversion E2. reflexivity.
+Qed.
+
 (* ---- outside the guard ---- *)
 Local Open Scope string_scope.
 (* an attribute whose name starts with two underscores (reported with
